@@ -1466,8 +1466,8 @@ fn main() {
                     }
                 }
                 if !o.status.success() {
-                    let null = json!({"null": true, "b": []});
-                    evs.push(json!({"id": id, "ev": "ffi", "fn": "process", "th": 0, "le_before": null, "le_after": null, "status": "process-died",
+                    let nl = json!({"null": true, "b": []});
+                    evs.push(json!({"id": id, "ev": "ffi", "fn": "process", "th": 0, "le_before": nl.clone(), "le_after": nl, "status": "process-died",
                                     "rust_status": "ok", "same": false, "rust_err": {"have": false, "b": []}, "args": {"round": round}}));
                     id += 1;
                 }
